@@ -23,7 +23,9 @@ package lib
 //	V:<path-hex>:<content-hex>  close the well-behaved session, then the file must be on disk (attachment) -> v=1
 //	X:<path-hex>:<content-hex>  x=1 when the file finally holds exactly this content
 //	T:<ms>      let real time pass (model: the clock of the following reads advances)
-//	W           wait 60 ms (teardown of a connection that was just closed)
+//	U<k>:<hex>  808: the NEW session of a key whose owner has just gone: open k and probe; a refused claim is repeated on a
+//	            fresh connection until accepted (the release of the key is the awaited event), at most 8 s -> as P
+//	W           wait 60 ms (no script uses it any more: nothing is decided by a time wait)
 //	A:<hex>     accept check: a NEW connection, send, wait for the answer, close  -> a=<hex>
 //
 // answer: ok alive=<0|1> g=... k<k>=<closed|open:<replies>|quiet:<replies>|gone> ... a=...
@@ -431,8 +433,13 @@ var (
 )
 
 // c10Expect808: does the real parser, fed the same reads in-process, deliver the probe frame (then its
-// answer will come and is worth waiting for) or report an error (then the close will come)?
-func c10Expect808(segs [][]byte, probeSerial uint16) (answer, closing bool) {
+// answer will come and is worth waiting for) or report an error (then the close will come)?  written = how many
+// frames the writer goroutine will have produced for everything delivered so far (one per complete message of a
+// registered type that HasReply, one echo per 0x8003): a WAIT TARGET only (the frames themselves are compared with
+// the model's); the runner waits for that many frames instead of for a time to pass.
+var c10Handles808 = c10ParseAllHandles()
+
+func c10Expect808(segs [][]byte, probeSerial uint16) (answer, closing bool, written int) {
 	v := service.NewVerifParser()
 	for i, s := range segs {
 		if len(s) == 0 {
@@ -445,17 +452,32 @@ func c10Expect808(segs [][]byte, probeSerial uint16) (answer, closing bool) {
 			ms, err = v.Feed(append([]byte(nil), s...))
 		}()
 		if err != nil {
-			return false, true
+			return false, true, written
+		}
+		for _, m := range ms {
+			h, ok := c10Handles808[m.Command]
+			switch {
+			case !ok:
+			case m.Command == consts.P8003ReissueSubcontractingRequest:
+				written++
+			case (m.JTMessage.Header.SubPackageSum == 0 || m.ExtensionFields.SubcontractComplete) && h.HasReply():
+				func() { // defaultReplyEvent writes nothing when ReplyBody fails (e.g. 0x0102 of a 2019 header, bad body)
+					defer func() { recover() }()
+					if _, err := h.ReplyBody(m.JTMessage); err == nil {
+						written++
+					}
+				}()
+			}
 		}
 		if i == len(segs)-1 {
 			for _, m := range ms {
 				if m.JTMessage.Header.SerialNumber == probeSerial {
-					return true, false
+					answer = true
 				}
 			}
 		}
 	}
-	return false, false
+	return answer, false, written
 }
 
 // c10ExpectAtt: the same for the attachment connection (VerifRun over a pipe, no file handler)
@@ -463,15 +485,16 @@ type c10NopEvent struct{}
 
 func (c10NopEvent) OnEvent(*attachment.PackageProgress) {}
 
-func c10ExpectAtt(dialect int, segs [][]byte) (answer bool) {
+// written = how many bytes the connection will have written for everything sent so far (a wait target only)
+func c10ExpectAtt(dialect int, segs [][]byte) (answer bool, written int) {
 	if len(segs) == 0 {
-		return false
+		return false, 0
 	}
 	var pre [][]byte
 	pre = append(pre, segs[:len(segs)-1]...)
 	r1 := AttRun(dialect, pre, c10NopEvent{})
 	r2 := AttRun(dialect, segs, c10NopEvent{})
-	return len(r2.Wire) > len(r1.Wire)
+	return len(r2.Wire) > len(r1.Wire), len(r2.Wire)
 }
 
 // ---------------------------------------------------------------- the op
@@ -481,6 +504,19 @@ func c10ExpectAtt(dialect int, segs [][]byte) (answer bool) {
 // again on fresh connections, up to 3 times; only what persists is reported.
 // C10LateAnswers counts answers that needed the long wait (a stall of the machine, not a replay).
 var C10LateAnswers = map[string]int{}
+
+// C10ClaimRepeats counts claims of a just-released key that came before the release (token U) and were repeated
+var C10ClaimRepeats int
+
+// C10WaitUnmet counts frame-count waits that ran into their bound (see c10Expect808)
+var C10WaitUnmet int
+var C10WaitUnmetSamples []string
+
+func c10UnmetSample(x string) {
+	if len(C10WaitUnmetSamples) < 12 {
+		C10WaitUnmetSamples = append(C10WaitUnmetSamples, x)
+	}
+}
 
 // patient waits for pred; when the normal timeout passes and the connection is still open it waits three times as
 // long again ON THE SAME CONNECTION (nothing is replayed, a late answer is still this attempt's answer).
@@ -655,12 +691,12 @@ func c10ContainOnce(kind string, a []string) (result string, suspect bool) {
 				}
 			}
 		case head == "X":
-			// what is on disk at this path in the end: x=1 when it is exactly this content (waits up to 3 s for it)
+			// what is on disk at this path in the end: x=1 when it is exactly this content (polls up to 12 s for it)
 			path, content, _ := strings.Cut(hx, ":")
 			want := Unhx(content)
 			full := filepath.Join(child.Cwd, string(Unhx(path)))
 			hit := "0"
-			wait := 3 * time.Second
+			wait := 12 * time.Second // polled: returns as soon as the content is there (as V)
 			if xcheck != "" {
 				wait = 50 * time.Millisecond // a later X judges the same final state
 			}
@@ -710,6 +746,49 @@ func c10ContainOnce(kind string, a []string) (result string, suspect bool) {
 				delete(conns, k)
 				status[k] = "gone"
 			}
+		case head[0] == 'U' && kind == "808":
+			// the NEW session of a key whose owner has just gone (F / R before).  The old connection's leave happens when
+			// its reader sees the FIN / RST - asynchronously; a claim that arrives earlier is legitimately refused (closed).
+			// So: dial, claim (a probe), wait for the answer or the close; a refused attempt is repeated on a fresh
+			// connection until the claim is accepted - the observable event that the key was released - or 8 s passed
+			// (a key that is never released is reported as k=closed).  No time wait decides anything.
+			k := atoi(head[1:])
+			_, _, _, pser, _, _ := Parse808(data)
+			if _, seen := status[k]; !seen {
+				order = append(order, k)
+			}
+			status[k] = "closed"
+			for t0 := time.Now(); ; {
+				if old, ok := conns[k]; ok {
+					old.close(false)
+					delete(conns, k)
+				}
+				c, err := c10Dial(child.Addr)
+				if err != nil {
+					fail = "dial:" + strconv.Itoa(k)
+					break
+				}
+				conns[k] = c
+				sent[k] = [][]byte{data}
+				c.c.Write(data)
+				d, closed, ok := c.waitFor(func(b []byte) bool { return c10ProbeAnswered(b, pser, 0x0002) }, 2*ContainWaitAnswer)
+				if closed && time.Since(t0) < 2*ContainWaitAnswer {
+					C10ClaimRepeats++
+					time.Sleep(2 * time.Millisecond)
+					continue
+				}
+				switch {
+				case closed:
+					if c.wasReset() {
+						suspect = true
+					}
+				case ok:
+					status[k] = "open:" + c10Replies808(d)
+				default:
+					status[k] = "quiet:" + c10Replies808(d)
+				}
+				break
+			}
 		case head[0] == 'P' || head[0] == 'Q': // Q = a probe whose connection the generator expects to be refused
 			k := atoi(head[1:])
 			c := open(k)
@@ -719,7 +798,7 @@ func c10ContainOnce(kind string, a []string) (result string, suspect bool) {
 			sent[k] = append(sent[k], data)
 			if kind == "808" {
 				_, _, _, pser, _, _ := Parse808(data)
-				answer, closing := c10Expect808(sent[k], pser)
+				answer, closing, written := c10Expect808(sent[k], pser)
 				c.c.Write(data)
 				wait := ContainWaitSilence
 				if answer || closing {
@@ -731,10 +810,17 @@ func c10ContainOnce(kind string, a []string) (result string, suspect bool) {
 						C10LateAnswers[kind]++
 					}
 				}
-				if ok && !closed && bytes.Contains(bytes.Join(sent[k], nil), []byte{0x7e, 0x80, 0x03}) {
-					// the echo of a 0x8003 frame travels on its own channel and may be written after the probe's answer
-					time.Sleep(30 * time.Millisecond)
-					d, closed = c.snapshot()
+				if !closed && written > 0 {
+					// what the writer still owes for the frames sent BEFORE the probe: the echo of a 0x8003 frame travels
+					// on its own channel and may be written after the probe's answer; and when the probe is not answered
+					// (swallowed by an open frame) nothing orders the earlier answers before the end of the silence
+					// window.  Wait for the predicted NUMBER of frames (an observable), not for a time to pass.
+					nf := func(b []byte) bool { fs, _ := SplitFrames(b); return len(fs) >= written }
+					var met bool
+					if d, closed, met = c.waitFor(nf, ContainWaitAnswer); !met && !closed {
+						C10WaitUnmet++ // the prediction was too high (costs the wait, nothing else)
+						c10UnmetSample(fmt.Sprintf("808 want=%d got=%s sent=%s", written, c10Replies808(d), Trunc(Hx(bytes.Join(sent[k], []byte{0xff, 0xff})), 400)))
+					}
 				}
 				switch {
 				case closed:
@@ -749,7 +835,7 @@ func c10ContainOnce(kind string, a []string) (result string, suspect bool) {
 				}
 			} else {
 				_, _, _, pser, _, _ := Parse808(data)
-				answer := c10ExpectAtt(dialect, sent[k])
+				answer, written := c10ExpectAtt(dialect, sent[k])
 				c.c.Write(data)
 				wait := ContainWaitSilence
 				if answer {
@@ -759,6 +845,15 @@ func c10ContainOnce(kind string, a []string) (result string, suspect bool) {
 				if !ok && !closed && answer {
 					if d, closed, ok = c.waitFor(func(b []byte) bool { return c10ProbeAnswered(b, pser, 0x1211) }, 3*ContainWaitAnswer); ok {
 						C10LateAnswers[kind]++
+					}
+				}
+				if !closed && !ok && len(d) < written {
+					// the probe is not answered (swallowed): nothing orders the answers to the EARLIER frames before the
+					// end of the silence window; wait for the predicted number of bytes, not for a time to pass
+					var met bool
+					if d, closed, met = c.waitFor(func(b []byte) bool { return len(b) >= written }, ContainWaitAnswer); !met && !closed {
+						C10WaitUnmet++
+						c10UnmetSample(fmt.Sprintf("att want=%d got=%s sent=%s", written, Hx(d), Trunc(Hx(bytes.Join(sent[k], []byte{0xff, 0xff})), 400)))
 					}
 				}
 				switch {
@@ -778,6 +873,13 @@ func c10ContainOnce(kind string, a []string) (result string, suspect bool) {
 		}
 	}
 	for _, c := range conns {
+		if suspect && kind == "808" {
+			// this script will be played again with the same terminal numbers: end the write side and wait until the
+			// SERVER has closed (its stop() leaves the registry before it closes the socket), so that the replay's
+			// claims do not race with this attempt's leaves
+			c.c.CloseWrite()
+			c.waitFor(func([]byte) bool { return false }, 2*time.Second)
+		}
 		c.close(false)
 	}
 	time.Sleep(2 * time.Millisecond)
